@@ -10,7 +10,7 @@ import (
 // Event is one entry of an observed history. Harness actions are logged BEFORE they are performed,
 // observations AFTER they were made (see lean/FwdVerif/Driver/C11.lean).
 type Event struct {
-	Op   string        `json:"op"`          // c r h p s g a e o R x L SC SR CC CR D X XR K
+	Op   string        `json:"op"`          // c r h p s g a e o R t x L SC SR CC CR D X XR K
 	K    int           `json:"k,omitempty"` // connection
 	A    bool          `json:"a,omitempty"` // c: tls   s: CONNECT   R: Connection: close   SR: nil
 	B    bool          `json:"b,omitempty"` // s: request carries Connection: close
@@ -35,7 +35,7 @@ func (e *Event) wire() string {
 		return fmt.Sprintf("R:%d:%s", e.K, b(e.A))
 	case "SR":
 		return "SR:" + b(e.A)
-	case "r", "h", "p", "g", "a", "e", "o", "x":
+	case "r", "h", "p", "g", "a", "e", "o", "x", "t":
 		return fmt.Sprintf("%s:%d", e.Op, e.K)
 	default:
 		return e.Op
